@@ -243,7 +243,8 @@ theorem prepared_edits (env : Env) (S : Store) (t : Txn) (hS : StoreOk S) (hL : 
     (p : Prepared) (S1 : Store) (h : prepareWith .fixed env S t = .ok p S1) :
     ∃ cx : Ctx, p.edits.map Edit.core = (es.map fun e => applied cx (S.find e.name) e).map Edit.core ∧
       firstFailure S.find es = none ∧
-      (∃ todo cid S0 es0, es0 = es ∧ prepLoop .fixed cx (if cx.hasGlobalLock then (fun S' => { S' with packedLock := false }) else id) todo cid S0 es0 = .ok p.edits S1) := by
+      (∃ todo cid S0 es0, es0 = es ∧ prepLoop .fixed cx (if cx.hasGlobalLock then (fun S' => { S' with packedLock := false }) else id) todo cid S0 es0 = .ok p.edits S1
+        ∧ todo = es.length ∧ cid = 0) := by
   obtain ⟨hl0, hpl0⟩ := hL
   obtain ⟨hinv, hn⟩ := preProcess_ok_inv _ _ hT es hp
   have hw := preProcess_ok_wf _ _ _ hp
@@ -267,7 +268,7 @@ theorem prepared_edits (env : Env) (S : Store) (t : Txn) (hS : StoreOk S) (hL : 
         simp only [liftPrep] at h
         injection h with h1 h2
         subst h1 h2
-        exact ⟨_, hsum.2.2, hsum.1, es.length, 0, _, es, rfl, hpl⟩
+        exact ⟨_, hsum.2.2, hsum.1, es.length, 0, _, es, rfl, hpl, rfl, rfl⟩
       | err e S2 => rw [hpl] at h; simp [liftPrep] at h
       | panic S2 => rw [hpl] at h; simp [liftPrep] at h
       | hang => rw [hpl] at h; simp [liftPrep] at h
@@ -286,7 +287,7 @@ theorem prepared_edits (env : Env) (S : Store) (t : Txn) (hS : StoreOk S) (hL : 
       simp only [liftPrep] at h
       injection h with h1 h2
       subst h1 h2
-      exact ⟨_, hsum.2.2, hsum.1, es.length, 0, _, es, rfl, hpl⟩
+      exact ⟨_, hsum.2.2, hsum.1, es.length, 0, _, es, rfl, hpl, rfl, rfl⟩
     | err e S2 => rw [hpl] at h; simp [liftPrep] at h
     | panic S2 => rw [hpl] at h; simp [liftPrep] at h
     | hang => rw [hpl] at h; simp [liftPrep] at h
@@ -321,7 +322,7 @@ theorem reflog_noderef (env : Env) (SX SX' : StoreX) (t : Txn) (hS : StoreOk SX.
       rw [hprep] at h
       simp only [] at h
       obtain ⟨_, hlogs⟩ := commitX_ok { SX with base := S1 } SX' p h
-      obtain ⟨cx, hcore, hff, todo, cid, S0, es0, hes0, hloop⟩ := prepared_edits env SX.base t hS hL hT es hp p S1 hprep
+      obtain ⟨cx, hcore, hff, todo, cid, S0, es0, hes0, hloop, _, _⟩ := prepared_edits env SX.base t hS hL hT es hp p S1 hprep
       -- no parents, no leaf values
       have hroot : ∀ e ∈ es, e.parent = none ∧ e.leafPrev = none := by
         intro e he
@@ -367,5 +368,64 @@ theorem reflog_noderef (env : Env) (SX SX' : StoreX) (t : Txn) (hS : StoreOk SX.
         unfold applied Edit.core
         cases e.update.change <;> rfl
       rw [hU, logsD_congr _ _ _ hkinds, hes]
+
+/-- `reflog_noderef` without the side condition on names below loose files -/
+theorem reflog_noderef_any (env : Env) (SX SX' : StoreX) (t : Txn) (hS : StoreOk SX.base) (hL : NoLocks SX.base)
+    (hT : PlainTxn t) (hnd : NoDeref t) (h : runX env SX t = .ok SX') :
+    SX'.logs = logsD (specLogsU (abs SX.base) SX.logs (t.edits.map fun u => { update := u }))
+      (t.edits.map fun u => { update := u }) := by
+  obtain ⟨p, S1, hprep, hc⟩ := runX_ok_parts env SX SX' t hL h
+  cases hp : preProcess (fun n => lookup SX.base.loose n) t.edits with
+  | outOfFuel => unfold prepareWith at hprep; rw [hp] at hprep; cases hprep
+  | cycle => unfold prepareWith at hprep; rw [hp] at hprep; cases hprep
+  | duplicate => unfold prepareWith at hprep; rw [hp] at hprep; cases hprep
+  | ok es =>
+    have hes := preProcess_noderef _ _ hnd es hp
+    obtain ⟨_, hlogs⟩ := commitX_ok { SX with base := S1 } SX' p hc
+    obtain ⟨cx, hcore, hff, todo, cid, S0, es0, hes0, hloop, _, _⟩ := prepared_edits env SX.base t hS hL hT es hp p S1 hprep
+    have hroot : ∀ e ∈ es, e.parent = none ∧ e.leafPrev = none := by
+      intro e he
+      rw [hes] at he
+      obtain ⟨u, _, hu⟩ := List.mem_map.mp he
+      rw [← hu]; exact ⟨rfl, rfl⟩
+    have hleaf := prepLoop_leaf_none cx (if cx.hasGlobalLock then (fun S' => { S' with packedLock := false }) else id)
+      todo cid S0 es0 (by rw [hes0]; exact hroot)
+    rw [hloop] at hleaf
+    simp only [] at hleaf
+    have hpe : p.edits = es.map fun e => applied cx (SX.base.find e.name) e := by
+      have h1 : p.edits.map Edit.core = p.edits := map_core_of_leaf_none _ (fun e he => (hleaf e he).2)
+      have h2 : (es.map fun e => applied cx (SX.base.find e.name) e).map Edit.core
+          = es.map fun e => applied cx (SX.base.find e.name) e := by
+        apply map_core_of_leaf_none
+        intro x hx
+        obtain ⟨e, he, hex⟩ := List.mem_map.mp hx
+        rw [← hex, applied_leaf]; exact (hroot e he).2
+      rw [← h1, hcore, h2]
+    rw [hlogs]
+    simp only []
+    have hU : logsU SX.logs p.edits = specLogsU (abs SX.base) SX.logs es := by
+      rw [hpe]
+      exact logsU_applied cx (abs SX.base) es SX.logs (fun e he => (hroot e he).2)
+        (firstFailure_none _ es hff)
+    have hkinds : ((commitUpdates (decide (p.mode = .updatesRemoveLoose)) S1 (p.edits.map Edit.core)).2).map editKind
+        = es.map editKind := by
+      have hsig := (commitUpdates_frame (decide (p.mode = .updatesRemoveLoose)) S1 (p.edits.map Edit.core)).2.2
+      have : ∀ l1 l2 : List Edit, l1.map Edit.sig = l2.map Edit.sig → l1.map editKind = l2.map editKind := by
+        intro l1
+        induction l1 with
+        | nil => intro l2 h; cases l2 with | nil => rfl | cons _ _ => simp at h
+        | cons a l1 ih =>
+          intro l2 h
+          cases l2 with
+          | nil => simp at h
+          | cons b l2 =>
+            simp only [List.map_cons, List.cons.injEq] at h ⊢
+            exact ⟨kind_of_sig a b h.1, ih l2 h.2⟩
+      rw [this _ _ hsig, hpe]
+      simp [List.map_map, Function.comp_def, editKind, core_name, applied_name]
+      intro e _
+      unfold applied Edit.core
+      cases e.update.change <;> rfl
+    rw [hU, logsD_congr _ _ _ hkinds, hes]
 
 end GixModel.C16Fs
